@@ -25,7 +25,8 @@ RULE = ("random directory graphs of up to 40 objects (mutable SDMF/MDMF director
         "3 objects reachable")
 TRUSTED = ["lean/Tahoe/Dir/Traverse.lean is a hand transcription of the traversal (explicit stack for the recursion over dirkids)",
            "harness/grid.py; the graph sent to the driver is read back from the real directories (list() of every directory node)"]
-ASSUMPTIONS = ["children of one object seen through its write cap and through its read cap have the same names and verifiers "
+ASSUMPTIONS = ["a literal directory nested in a literal directory has a strictly shorter cap string (checked on every graph)",
+               "children of one object seen through its write cap and through its read cap have the same names and verifiers "
                "(checked on every generated graph)",
                "the traversal runs without concurrent modification of the directories"]
 
@@ -279,6 +280,14 @@ def one_case(ctx, w, case, lines, impls, cases):
             sig = (k, tuple((name, infos[c][1] if infos[c][1] is not None else ("lit", infos[c][3].get_uri())) for name, c in kids))
             if byv.setdefault(v, sig) != sig:
                 ctx.disagree("the same object shows different children through two caps", case, repr(sig), repr(byv[v]))
+    # assumption of `terminates_with_nested_literal_dirs`: a literal directory inside a literal directory has a shorter cap
+    for i, (k, v, kids, n) in infos.items():
+        if k == "d" and v is None:
+            for name, c in kids:
+                if infos[c][0] == "d" and infos[c][1] is None and not len(infos[c][3].get_uri()) < len(n.get_uri()):
+                    ctx.disagree("a literal directory contains a literal directory whose cap is not shorter", case,
+                                 [len(infos[c][3].get_uri()), len(n.get_uri())], None)
+                ctx.count("literal-dir-links")
     node_s = ";".join("%d:%s:%s:%s" % (i, k, hx(v) if v else "-", ",".join("%s>%d" % (nm(name), c) for name, c in kids) or "-")
                       for i, (k, v, kids, n) in sorted(infos.items()))
     fuel = len(infos) * 4 + 8
